@@ -23,6 +23,17 @@ import BtcVerif.Crypto.Sha256
 namespace BtcVerif.Spec.ValueSem
 open BtcVerif BtcVerif.Model
 
+/-- `List.mapM` in `Option`, written out so that it unfolds definitionally -/
+def mapO {α β : Type} (f : α → Option β) : List α → Option (List β)
+  | [] => some []
+  | a :: as =>
+    match f a with
+    | none => none
+    | some b =>
+      match mapO f as with
+      | none => none
+      | some bs => some (b :: bs)
+
 /-! ### values -/
 
 /-- a value of any class of the catalogue; the four sequence cases are the values of the
@@ -302,7 +313,8 @@ def observe (s : Store) (t : Target) (f : Val → Out) : Store × Out :=
   | none => (bind s none, .badRef)
   | some (_, v) => (bind s none, if v.isSeq then .na else f v)
 
-def newBlockVal (hdr : Header) (es : List (Entry × Tx)) : Res Block := do
+/-- the checks of `CBlock.__init__` in their order; result: the header with its merkle root -/
+def newBlockHdr (hdr : Header) (es : List (Entry × Tx)) : Res Header := do
   let vs := es.map (·.2)
   let merkle ←
     if vs.isEmpty then pure hdr.hashMerkleRoot
@@ -318,8 +330,13 @@ def newBlockVal (hdr : Header) (es : List (Entry × Tx)) : Res Block := do
   let _ ← vs.mapM (fun t => Wire.serTx t)
   -- tuple(CTransaction.from_tx(tx) for tx in vtx)
   if es.all (fun (e, t) => !e.isMut || validTx t) then
-    pure { hdr := { hdr with hashMerkleRoot := merkle }, vtx := vs }
+    pure { hdr with hashMerkleRoot := merkle }
   else throw .valueerr
+
+def newBlockVal (hdr : Header) (es : List (Entry × Tx)) : Res Block :=
+  match newBlockHdr hdr es with
+  | .ok h => .ok { hdr := h, vtx := es.map (·.2) }
+  | .error x => .error x
 
 def step (s : Store) : Op → Store × Out
   | .newTx v =>
@@ -331,7 +348,7 @@ def step (s : Store) : Op → Store × Out
         (bind s (some ⟨false, .header v⟩), .created)
       else (bind s none, .err assertionError)
   | .newBlock hdr txs =>
-      match txs.mapM (lookupTx s) with
+      match mapO (lookupTx s) txs with
       | none => (bind s none, .badRef)
       | some es =>
         match newBlockVal hdr es with
